@@ -163,6 +163,15 @@ func runJCase(c *jcase, em *Emitter, tags string, queries func(t *vm.Tracer, q f
 	if len(kparts) > 0 {
 		kline = strings.Join(kparts, ",")
 	}
+	// the enclosing top-level frame as the call tree recorded it (input of the model, not compared here)
+	root := env.evm.Tracer().CallTree().FindCall(0)
+	if root != nil {
+		d := root.Data
+		if d == nil {
+			d = []byte{}
+		}
+		em.Op("-", fmt.Sprintf("T call %s %s %s %s %s", hexAddr(root.From), hexAddrP(root.To), hexBytes(d), hexNatU(root.Value), hexNatU(root.Gas)), "ok")
+	}
 	em.Op("-", fmt.Sprintf("JE %s %s %s %s", hexAddr(contractAddr), hexBytes(pad32(c.mem)), storageLine(c.storage), kline), "ok")
 	// executed journal steps
 	var jsteps []int
@@ -200,6 +209,9 @@ func runJCase(c *jcase, em *Emitter, tags string, queries func(t *vm.Tracer, q f
 	}
 	if panicked != "" && len(jsteps) == 0 {
 		em.Op(tags, "J none", "panic:"+strings.ReplaceAll(panicked, " ", "_"))
+	}
+	if root != nil && panicked == "" {
+		em.Op("-", fmt.Sprintf("T exit %s %s %s", hexU64(root.RemainingGas), optBytes(root.Ret), errStr(root.Err)), "ok")
 	}
 	if queries != nil {
 		queries(env.evm.Tracer(), func(tg, op, impl string) { em.Op(tg, "Q "+op, impl) })
@@ -300,9 +312,9 @@ func stringContent(r *Rng, n int) []byte {
 
 // memory image holding ABI-like (length, data) records at chosen pointers
 func memWithRecord(r *Rng) ([]byte, *uint256.Int) {
-	size := []int{0, 32, 64, 96, 160, 4096}[r.Intn(6)]
+	size := []int{0, 32, 64, 96, 160, 4096, 96, 160, 256}[r.Intn(9)]
 	mem := r.Bytes(size)
-	if size >= 64 && r.Chance(70) {
+	if size >= 64 && r.Chance(85) {
 		// a well-formed record at a random aligned-or-not pointer
 		ptr := r.Intn(size - 63)
 		maxLen := size - ptr - 32
@@ -310,7 +322,7 @@ func memWithRecord(r *Rng) ([]byte, *uint256.Int) {
 		if r.Chance(30) {
 			l = maxLen // exactly up to the end
 		}
-		if r.Chance(15) {
+		if r.Chance(7) {
 			l = maxLen + 1 + r.Intn(40) // overruns memory
 		}
 		lw := uint256.NewInt(uint64(l)).Bytes32()
@@ -389,44 +401,101 @@ func genJournalProgram(r *Rng) *jcase {
 	c.mem = mem
 	slots := []*uint256.Int{smallSlot(r), smallSlot(r), smallSlot(r)}
 	types := []*uint256.Int{uint256.NewInt(1), uint256.NewInt(2)}
-	offs := []*uint256.Int{uint256.NewInt(0), uint256.NewInt(0), uint256.NewInt(3), uint256.NewInt(31), uint256.NewInt(32), boundaryWord(r)}
+	offs := []*uint256.Int{uint256.NewInt(0), uint256.NewInt(0), uint256.NewInt(0), uint256.NewInt(3), uint256.NewInt(16), uint256.NewInt(31), uint256.NewInt(31)}
+	if r.Chance(20) {
+		offs = append(offs, uint256.NewInt(32), boundaryWord(r))
+	}
 	for _, s := range slots {
-		if r.Chance(50) {
+		if r.Chance(75) {
 			putString(c.storage, s, stringContent(r, []int{0, 1, 5, 31, 32, 33, 64, 70}[r.Intn(8)]))
 		} else {
 			c.storage[s.Bytes32()] = wordFrom(r).Bytes32()
 		}
 	}
 	pick := func(l []*uint256.Int) *uint256.Int { return l[r.Intn(len(l))] }
-	n := 1 + r.Intn(6)
+	n := 1 + r.Intn(10)
+	// keys registered so far: valid parents (offset 0) and valid targets of change journals
+	type regd struct {
+		slot, off, typ *uint256.Int // off == nil: reference-typed key
+	}
+	var keys []regd
+	parentsOf := func() []regd {
+		var ps []regd
+		for _, k := range keys {
+			if k.off == nil || k.off.IsZero() {
+				ps = append(ps, k)
+			}
+		}
+		return ps
+	}
 	for i := 0; i < n; i++ {
 		op := r.Intn(8)
+		if len(keys) == 0 && r.Chance(80) {
+			op = r.Intn(2) // start with a top-level registration most of the time
+		}
 		p := ptr
-		if r.Chance(15) {
+		if r.Chance(5) {
 			p = boundaryWord(r)
 		}
 		var args []*uint256.Int
 		switch op {
 		case 0:
 			args = []*uint256.Int{p, pick(slots), pick(types)}
+			keys = append(keys, regd{args[1], nil, args[2]})
 		case 1:
 			args = []*uint256.Int{p, pick(slots), pick(offs), pick(types)}
-		case 2:
-			args = []*uint256.Int{pick(slots), pick(slots), p, pick(offs), pick(types), pick(types)}
-		case 3:
-			args = []*uint256.Int{pick(slots), pick(slots), p, pick(types), pick(types)}
-		case 4:
-			args = []*uint256.Int{pick(slots), pick(slots), wordFrom(r), pick(offs), pick(types), pick(types)}
-		case 5:
-			args = []*uint256.Int{pick(slots), pick(slots), wordFrom(r), pick(types), pick(types)}
+			keys = append(keys, regd{args[1], args[2], args[3]})
+		case 2, 3, 4, 5:
+			base, ptyp := pick(slots), pick(types)
+			if ps := parentsOf(); len(ps) > 0 && r.Chance(85) {
+				g := ps[r.Intn(len(ps))]
+				base, ptyp = g.slot, g.typ
+			}
+			key := p
+			if op >= 4 {
+				key = wordFrom(r)
+			}
+			self, typ := pick(slots), pick(types)
+			if op == 2 || op == 4 {
+				args = []*uint256.Int{base, self, key, pick(offs), typ, ptyp}
+				keys = append(keys, regd{self, args[3], typ})
+			} else {
+				args = []*uint256.Int{base, self, key, typ, ptyp}
+				keys = append(keys, regd{self, nil, typ})
+			}
 		case 6:
+			slot, o, typ := pick(slots), pick(offs), pick(types)
+			var vals []regd
+			for _, k := range keys {
+				if k.off != nil {
+					vals = append(vals, k)
+				}
+			}
+			if len(vals) > 0 && r.Chance(85) {
+				g := vals[r.Intn(len(vals))]
+				slot, o, typ = g.slot, g.off, g.typ
+			}
 			sz := uint256.NewInt(uint64(r.Intn(34)))
-			if r.Chance(10) {
+			if o.IsUint64() && o.Uint64() <= 31 && r.Chance(85) {
+				sz = uint256.NewInt(uint64(r.Intn(int(33 - o.Uint64()))))
+			}
+			if r.Chance(5) {
 				sz = boundaryWord(r)
 			}
-			args = []*uint256.Int{pick(slots), pick(offs), sz, pick(types)}
+			args = []*uint256.Int{slot, o, sz, typ}
 		case 7:
-			args = []*uint256.Int{pick(slots), pick(types)}
+			slot, typ := pick(slots), pick(types)
+			var refs []regd
+			for _, k := range keys {
+				if k.off == nil {
+					refs = append(refs, k)
+				}
+			}
+			if len(refs) > 0 && r.Chance(85) {
+				g := refs[r.Intn(len(refs))]
+				slot, typ = g.slot, g.typ
+			}
+			args = []*uint256.Int{slot, typ}
 		}
 		c.ops = append(c.ops, jinstr{op, args})
 	}
